@@ -69,6 +69,14 @@ def funcs(ctx, module=None, stubs=None):
             return exprs[nm]
         if nm in _BUILTIN_NAMES:
             return _BUILTIN_NAMES[nm]
+        # a repository class referred to by name (static methods, class constants, construction)
+        quals = [q for q, ci in ctx.prog.classes.items() if ci.name == nm]
+        if module is not None and (module + '.' + nm) in quals:
+            quals = [module + '.' + nm]
+        if len(quals) == 1:
+            if ('class', quals[0]) not in exprs:
+                exprs[('class', quals[0])] = ClassRef(ctx, quals[0], fn)
+            return exprs[('class', quals[0])]
         raise orders.Unsupported('free name %s' % nm)
 
     def resolve(call, fname):
@@ -80,6 +88,9 @@ def funcs(ctx, module=None, stubs=None):
     fn.update({'__name__': name_of, '__resolve__': resolve, '__globals__': {},
                'floor': math.floor, 'ceil': math.ceil, 'sqrt': math.sqrt, 'fabs': abs, 'trunc': math.trunc, 'round': round,
                'isnan': lambda v: isinstance(v, float) and v != v, 'print': lambda *a, **k: None})
+    for nm_ in dir(math):
+        if not nm_.startswith('_') and callable(getattr(math, nm_)):
+            fn.setdefault(nm_, getattr(math, nm_))
     fn.setdefault('deepcopy', deep_copy)
     fn.setdefault('copy', shallow_copy)
     fn.update(stubs or {})
@@ -96,6 +107,19 @@ def methods_of(ctx, clsqual):
                 out.update(methods_of(ctx, q))
     for name, fi in c.methods.items():
         out[name] = fi.node
+    return out
+
+
+def owners_of(ctx, clsqual):
+    """method name -> name of the class that defines it (private names are mangled with the DEFINING class)"""
+    out = {}
+    c = ctx.prog.cls(clsqual)
+    for b in c.bases:
+        for q, ci in ctx.prog.classes.items():
+            if ci.name == b.split('.')[-1] and ci is not c:
+                out.update(owners_of(ctx, q))
+    for name in c.methods:
+        out[name] = c.name
     return out
 
 
@@ -126,6 +150,7 @@ def instance(ctx, clsqual, fields, fn, isa=None):
     o = orders.Obj(dict(fields), methods_of(ctx, clsqual), fn, isa=isa or {c.name})
     o.clsname = c.name
     o.consts = consts_of(ctx, clsqual, fn)
+    o.owners = owners_of(ctx, clsqual)
     return o
 
 
@@ -160,7 +185,7 @@ class ClassRef(orders.PyStub):
                 setattr(self, name, orders.make_func(node, fn))
 
     def __call__(self, *args, **kwargs):
-        obj = instance(self._ctx, self._qual, {}, self._fn)
+        obj = instance(self._ctx, self._qual, {}, self._fn, isa=all_bases(self._ctx, self._qual))
         if '__init__' in obj.methods:
             obj.call('__init__', *args, **kwargs)
         return obj
@@ -194,6 +219,7 @@ def shallow_copy(v):
         o = orders.Obj(dict(v.fields), v.methods, v.funcs, isa=v.isa)
         o.clsname = v.clsname
         o.consts = getattr(v, 'consts', None)
+        o.owners = getattr(v, 'owners', None)
         return o
     if isinstance(v, (list, dict, set)):
         return _copy.copy(v)
@@ -211,6 +237,7 @@ def deep_copy(v, memo=None):
         o = orders.Obj({}, v.methods, v.funcs, isa=v.isa)
         o.clsname = v.clsname
         o.consts = getattr(v, 'consts', None)
+        o.owners = getattr(v, 'owners', None)
         memo[id(v)] = o
         o.fields = {k: deep_copy(x, memo) for k, x in v.fields.items()}
         return o
